@@ -75,6 +75,8 @@ source (`Gen/Facts`); used for the heap accounting -/
 structure Sizes where
   ctr : Family → Backend → Nat
   par : Family → Nat
+  ctrCleanse : Family → Backend → Nat     -- size argument of the `skinny_cleanse` call in the cleanup function
+  parCleanse : Family → Nat
 
 structure World where
   heap : List Alloc := []
@@ -173,8 +175,7 @@ def ctrCleanup (bd : Build) (f : Family) (w : World) (h : Option Handle) : M (Wo
     | .null => pure (w, some { hd with vtable := .null })
     | p =>
       let (id, _) ← w.deref p
-      let sz := bd.sizes.ctr f be
-      pure (w.wipeAndFree id sz sz, some { hd with vtable := .null, ctx := .null })
+      pure (w.wipeAndFree id (bd.sizes.ctr f be) (bd.sizes.ctrCleanse f be), some { hd with vtable := .null, ctx := .null })
 
 /-- generic shape of the CTR setters: `upd` is the underlying schedule/counter update; `needKey`
 says whether the back-end function rejects a null data pointer before looking at the context -/
@@ -336,8 +337,7 @@ def parCleanup (bd : Build) (f : Family) (w : World) (h : Option Handle) : M (Wo
     | .null => .ok (w, h)
     | p => do
       let (id, _) ← w.deref p
-      let sz := bd.sizes.par f
-      pure (w.wipeAndFree id sz sz, some { hd with ctx := .null })
+      pure (w.wipeAndFree id (bd.sizes.par f) (bd.sizes.parCleanse f), some { hd with ctx := .null })
 
 /-- `skinnyN_parallel_ecb_set_key` -/
 def skinnyParSetKey (bd : Build) (f : Family) (w : World) (h : Option Handle) (key : Option Bytes) (size : Nat) (junk : UInt8) :
